@@ -283,10 +283,10 @@ theorem index_bound (n g e : Nat) (hg : g < n) (he : e < n) : n * g + e < n * n 
     _ = n * (g + 1) := by rw [Nat.mul_add, Nat.mul_one]
     _ ≤ n * n := Nat.mul_le_mul_left n (by omega)
 
-theorem confusion_some (labels : List String) (t : Table) (m : List (List Nat))
-    (h : getConfusionMatrix labels t = .ok (some m)) :
+theorem confusionWith_some (tl : List String) (t : Table) (m : List (List Nat))
+    (h : confusionWith tl t = .ok (some m)) :
     sumN (m.map sumN) = (getPairResults t).length ∧ 0 < (getPairResults t).length := by
-  unfold getConfusionMatrix at h
+  unfold confusionWith at h
   split at h
   · simp at h
   · simp only at h
@@ -299,12 +299,12 @@ theorem confusion_some (labels : List String) (t : Table) (m : List (List Nat))
       · rename_i hne
         simp only [Except.ok.injEq, Option.some.injEq] at h
         subst h
-        have hlen : ((gi.zip ei).map fun (g, e) => (confusionLabels labels).length * g + e).length = (getPairResults t).length := by
+        have hlen : ((gi.zip ei).map fun (g, e) => tl.length * g + e).length = (getPairResults t).length := by
           simp [g1, e1]
         rw [bincount_sum]
         · refine ⟨hlen, ?_⟩
           rw [← hlen]
-          cases hh : ((gi.zip ei).map fun (g, e) => (confusionLabels labels).length * g + e) with
+          cases hh : ((gi.zip ei).map fun (g, e) => tl.length * g + e) with
           | nil => simp [hh] at hne
           | cons a b => simp
         · intro k hk
@@ -315,9 +315,9 @@ theorem confusion_some (labels : List String) (t : Table) (m : List (List Nat))
     · simp at h
     · simp at h
 
-theorem confusion_none_iff (labels : List String) (t : Table) :
-    getConfusionMatrix labels t = .ok none ↔ getPairResults t = [] := by
-  unfold getConfusionMatrix
+theorem confusionWith_none_iff (tl : List String) (t : Table) :
+    confusionWith tl t = .ok none ↔ getPairResults t = [] := by
+  unfold confusionWith
   constructor
   · intro h
     split at h
@@ -332,8 +332,8 @@ theorem confusion_none_iff (labels : List String) (t : Table) :
         obtain ⟨e1, _⟩ := labelIndices_ok _ _ _ hei
         split at h
         · rename_i hemp
-          have : ((gi.zip ei).map fun (g, e) => (confusionLabels labels).length * g + e).length = 0 := by
-            cases hh : ((gi.zip ei).map fun (g, e) => (confusionLabels labels).length * g + e) with
+          have : ((gi.zip ei).map fun (g, e) => tl.length * g + e).length = 0 := by
+            cases hh : ((gi.zip ei).map fun (g, e) => tl.length * g + e) with
             | nil => rfl
             | cons a b => simp [hh] at hemp
           simp [g1, e1] at this
@@ -345,5 +345,41 @@ theorem confusion_none_iff (labels : List String) (t : Table) :
     split
     · rfl
     · simp [h, labelIndices]
+
+/-- the repaired `get_confusion_matrix`: a returned matrix sums to the number of paired rows -/
+theorem confusion_some (labels : List String) (t : Table) (m : List (List Nat))
+    (h : getConfusionMatrix labels t = .ok (some m)) :
+    sumN (m.map sumN) = (getPairResults t).length ∧ 0 < (getPairResults t).length :=
+  confusionWith_some _ t m h
+
+theorem confusion_none_iff (labels : List String) (t : Table) :
+    getConfusionMatrix labels t = .ok none ↔ getPairResults t = [] :=
+  confusionWith_none_iff _ t
+
+/-- the same for the pre-fix function (N3) -/
+theorem confusionOld_some (labels : List String) (t : Table) (m : List (List Nat))
+    (h : getConfusionMatrixOld labels t = .ok (some m)) :
+    sumN (m.map sumN) = (getPairResults t).length ∧ 0 < (getPairResults t).length :=
+  confusionWith_some _ t m h
+
+theorem confusionOld_none_iff (labels : List String) (t : Table) :
+    getConfusionMatrixOld labels t = .ok none ↔ getPairResults t = [] :=
+  confusionWith_none_iff _ t
+
+/-- shape of a returned matrix: square, of the size of the index -/
+theorem confusionWith_shape (tl : List String) (t : Table) (m : List (List Nat))
+    (h : confusionWith tl t = .ok (some m)) : m.length = tl.length ∧ ∀ row ∈ m, row.length = tl.length := by
+  unfold confusionWith at h
+  split at h
+  · simp at h
+  · simp only at h
+    split at h
+    · split at h
+      · simp at h
+      · simp only [Except.ok.injEq, Option.some.injEq] at h
+        subst h
+        simp [bincountMatrix]
+    · simp at h
+    · simp at h
 
 end PEval.Analyzer
